@@ -1353,7 +1353,65 @@ def sched_jssp(ctx, taped: bool):
         ctx.case(("jssp-real", J, M, one2one, seed))
 
 
+def sched_file_generators(ctx):
+    """`FJSPFileGenerator` / `JSSPFileGenerator` (generators too): directories of files whose instances have DIFFERENT numbers of
+    operations, so that padding is really applied — the loaded batch must mark exactly the real operations as non-padded and
+    every non-padded operation must be eligible on a machine with positive time"""
+    from rl4co.envs.scheduling.fjsp.env import FJSPEnv
+    from rl4co.envs.scheduling.fjsp.generator import FJSPFileGenerator, FJSPGenerator
+    from rl4co.envs.scheduling.fjsp.parser import write
+    from rl4co.envs.scheduling.jssp.generator import JSSPFileGenerator
+
+    rng = ctx.rng
+    for rep in range(ctx.budget(3, 20)):
+        J, M = rng.choice([2, 3, 4]), rng.choice([1, 2, 3])
+        B = rng.choice([2, 3, 4])
+        tmp = tempfile.mkdtemp(prefix="gen_schedfiles_")
+        try:
+            # FJSP: generated instances with 1..4 operations per job (totals differ), written by the repo's writer
+            seed_all(rng.randrange(1 << 30))
+            td = FJSPGenerator(num_jobs=J, num_machines=M, min_ops_per_job=1, max_ops_per_job=4, max_processing_time=9)([B])
+            totals = (~td["pad_mask"]).sum(1).tolist()
+            with quiet():
+                env = FJSPEnv(generator_params=dict(num_jobs=J, num_machines=M, min_ops_per_job=1, max_ops_per_job=4))
+                write(os.path.join(tmp, "f"), env.reset(td.clone()))
+                g = FJSPFileGenerator(os.path.join(tmp, "f"))
+                tdf = g([B])
+            params = dict(kind="fjsp-files", num_jobs=J, num_machines=M, operation_totals=totals)
+            ctx.count(f"sched-files:fjsp:{'different' if len(set(totals)) > 1 else 'equal'}-operation-counts")
+            got = sorted((~tdf["pad_mask"]).sum(1).tolist())
+            if got != sorted(totals):
+                V(ctx, "fjsp-file-generator-pad-mask", f"FJSPFileGenerator: numbers of non-padded operations {got} differ from the instances' {sorted(totals)}",
+                  {"params": params})
+            sched_wf(ctx, "fjsp-file-generator", tdf, params, 1, 9)
+            ctx.case(("fjsp-files", J, M, tuple(totals)))
+            # JSSP: files in the parser's format with different numbers of operations per instance
+            os.makedirs(os.path.join(tmp, "j"))
+            jt = []
+            for b in range(B):
+                n_ope, proc = build_sched_instance(rng, J, M, 4, "jssp")
+                total = sum(n_ope)
+                ma = [max(range(M), key=lambda m: proc[m][o]) for o in range(total)]
+                du = [proc[ma[o]][o] for o in range(total)]
+                r = ask(ctx, [f"gen.jsspwrite {M} | " + " ".join(map(str, n_ope)) + " | " + " ".join(map(str, ma)) + " | " + " ".join(map(str, du))])[0]
+                with open(os.path.join(tmp, "j", f"{b:04d}.txt"), "w") as fh:
+                    fh.write("\n".join(ln.replace(",", " ") for ln in r["lines"].split(";")))
+                jt.append(total)
+            with quiet():
+                tdj = JSSPFileGenerator(os.path.join(tmp, "j"))([B])
+            ctx.count(f"sched-files:jssp:{'different' if len(set(jt)) > 1 else 'equal'}-operation-counts")
+            gotj = sorted((~tdj["pad_mask"]).sum(1).tolist())
+            if gotj != sorted(jt):
+                V(ctx, "jssp-file-generator-pad-mask", f"JSSPFileGenerator: numbers of non-padded operations {gotj} differ from the instances' {sorted(jt)}",
+                  {"kind": "jssp-files", "operation_totals": jt})
+            sched_wf(ctx, "jssp-file-generator", tdj, dict(kind="jssp-files", operation_totals=jt), 1, 1000, one_machine=True)
+            ctx.case(("jssp-files", J, M, tuple(jt)))
+        finally:
+            shutil.rmtree(tmp, ignore_errors=True)
+
+
 def run_sched(ctx):
+    guarded(ctx, "sched-file-generators", sched_file_generators)
     N = ctx.budget(250, 12000)
     for it in range(N):
         if it % 4 < 2:
@@ -1560,6 +1618,167 @@ def run_solvable(ctx):
                     ctx.sample({"case": "mask-confined episode on generated instances", "env": name, "generator_params": gp, "seed": seed, "policy": policy,
                                 "B": 3, "outcome": status, "steps": steps}, cap=3)
                 ctx.case(("solv", name, tuple(sorted((k, str(v)) for k, v in gp.items())), seed, policy))
+
+
+# =================================================================================================
+# C18 gen_history: call sequences in one process — outputs are functions of the call's own arguments
+# =================================================================================================
+
+def check_tables(ctx, snap, where):
+    for mn, k, before, after in G.tables_changed(snap):
+        V(ctx, f"module-table-mutated:{mn.split('.')[-2]}.{k}", f"the module-level table `{k}` of {mn} was changed by {where}: {before} → {after}",
+          {"module": mn, "table": k, "after": where})
+
+
+def guard_tables(fn, what):
+    """wrap a unit's run function: the generators' module-level tables are deep-compared before / after the whole sweep"""
+    def run(ctx):
+        snap = G.tables_snapshot()
+        try:
+            fn(ctx)
+        finally:
+            check_tables(ctx, snap, f"the calls of unit {what}")
+    return run
+
+
+def history_dataset_writers(ctx):
+    """`generate_vrp_data` / `generate_op_data` / `generate_pctsp_data` / `generate_dataset`: a call with legal overrides followed by
+    default calls — every call's output must be what a fresh process gives for the same arguments (Lean: `Persist.vrpCalls`)"""
+    from rl4co.data import generate_data as gd
+
+    rng = ctx.rng
+    snap = G.tables_snapshot()
+    table = {n: float(parse_frac(r["val"])) for n, r in zip([10, 15, 20, 30, 40, 50, 60, 75, 100, 125, 150, 200, 500, 1000],
+                                                         ask(ctx, [f"gen.tbl 0 {n}" for n in [10, 15, 20, 30, 40, 50, 60, 75, 100, 125, 150, 200, 500, 1000]]))}
+    ml_table = {n: float(parse_frac(r["val"])) for n, r in zip([20, 50, 100], ask(ctx, [f"gen.tbl 1 {n}" for n in [20, 50, 100]]))}
+    for rep in range(ctx.budget(3, 20)):
+        calls = []
+        for _ in range(rng.choice([2, 3, 5])):
+            n = rng.choice([10, 20, 20, 50, 100])
+            kind = rng.random()
+            if kind < 0.45:
+                ov = {}
+            elif kind < 0.85:
+                ov = {rng.choice([n, n, 20, 50]): rng.choice([16.0, 60.0, 99.0])}
+            else:
+                ov = {n: 64.0, 21: 5.0}       # a key that is not in the table is ignored
+            calls.append((n, ov))
+        calls.append((calls[0][0], {}))        # always end with a default call of an earlier size
+        line = "gen.vrpcalls | " + " | ".join(" ".join([str(n)] + [f"{k} {frac_pair(v)[0]} {frac_pair(v)[1]}" for k, v in ov.items()]) for n, ov in calls)
+        model = [float(parse_frac(x)) for x in ask(ctx, [line])[0]["caps"].split(",")]
+        real = []
+        for n, ov in calls:
+            np.random.seed(rng.randrange(1 << 30))
+            with quiet():
+                ds = gd.generate_vrp_data(2, n, capacities=dict(ov) if ov else None)
+            real.append(float(ds["capacity"][0]))
+        for j, ((n, ov), m_, r_) in enumerate(zip(calls, model, real)):
+            if m_ != r_:
+                if not ov and r_ != table[n]:
+                    V(ctx, "generate-vrp-data-default-call-depends-on-history",
+                      f"generate_vrp_data(size={n}) without overrides wrote capacity {r_} (documented table: {table[n]}) after the calls {calls[:j]}",
+                      {"calls": [[n_, ov_] for n_, ov_ in calls[:j + 1]], "capacities_written": real[:j + 1]})
+                else:
+                    ctx.disagreement("generate_vrp_data call history vs Gen.Persist.vrpCalls", {"calls": [[n_, ov_] for n_, ov_ in calls], "real": real, "model": model})
+                break
+        ctx.count("history:generate_vrp_data")
+        ctx.case(("hist-vrp", tuple((n, tuple(ov.items())) for n, ov in calls)))
+        if rep == 0:
+            ctx.sample({"case": "history of generate_vrp_data calls in one process vs Gen.Persist.vrpCalls", "calls (size, capacities=)": [[n, ov] for n, ov in calls],
+                        "capacities_written": real, "model": model}, cap=1)
+    # OP / PCTSP: `max_lengths` override then default; generate_dataset after an override
+    for n in (20, 50, 100):
+        x = rng.choice([1.25, 7.0])
+        with quiet():
+            a = gd.generate_op_data(2, n, "const", max_lengths={n: x})
+            b = gd.generate_op_data(2, n, "const")
+            gd.generate_pctsp_data(2, n, max_lengths={n: x})
+            gd.generate_vrp_data(2, n, capacities={n: 77.0})
+        if float(a["max_length"][0]) != f32(x) or float(b["max_length"][0]) != f32(ml_table[n]):
+            V(ctx, "generate-op-data-default-call-depends-on-history", f"generate_op_data(size={n}): override {x} → {float(a['max_length'][0])}, then default → "
+              f"{float(b['max_length'][0])} (documented {ml_table[n]})", {"size": n})
+        tmp = tempfile.mkdtemp(prefix="gen_hist_")
+        try:
+            fn = os.path.join(tmp, "v.npz")
+            with quiet():
+                gd.generate_dataset(filename=fn, problem="vrp", dataset_size=3, graph_sizes=[n], seed=1, overwrite=True)
+            cap = float(np.load(fn)["capacity"][0])
+            if cap != table[n]:
+                V(ctx, "generate-vrp-data-default-call-depends-on-history", f"generate_dataset(problem='vrp', graph_sizes=[{n}]) wrote capacity {cap} "
+                  f"(documented {table[n]}) after an earlier generate_vrp_data(capacities={{{n}: 77.0}}) in the same process", {"size": n})
+        finally:
+            shutil.rmtree(tmp, ignore_errors=True)
+        ctx.count("history:op/pctsp/generate_dataset")
+        ctx.case(("hist-op", n, x))
+    check_tables(ctx, snap, "the dataset writers (generate_*_data with overrides)")
+
+
+def history_generators(ctx):
+    """generator objects: (1) one object reused with different batch sizes; (2) an object built with overrides followed by a default
+    object — the default one must behave as in a fresh process; module tables untouched after every call"""
+    from rl4co.envs.routing.cvrp.generator import CVRPGenerator
+    from rl4co.envs.routing.cvrptw.generator import CVRPTWGenerator
+    from rl4co.envs.routing.op.generator import OPGenerator
+    from rl4co.envs.routing.pctsp.generator import PCTSPGenerator
+    from rl4co.envs.routing.mtvrp.generator import MTVRPGenerator, VARIANT_GENERATION_PRESETS
+    from rl4co.envs.scheduling.fjsp.generator import FJSPGenerator
+
+    rng = ctx.rng
+    snap = G.tables_snapshot()
+    for n in rng.sample(CVRP_SIZES, 4) + [20]:
+        cap_tbl = float(parse_frac(ask(ctx, [f"gen.tbl 0 {n}"])[0]["val"]))
+        ml_tbl = float(parse_frac(ask(ctx, [f"gen.tbl 1 {n}"])[0]["val"]))
+        with quiet():
+            g_ov = CVRPGenerator(num_loc=n, capacity=64.0, min_demand=3, max_demand=7)
+            g_ov([2])
+            g = CVRPGenerator(num_loc=n)
+            outs = [g([B]) for B in (2, 5, 1, 3)]                      # one object, several batch sizes
+            gtw = CVRPTWGenerator(num_loc=n)([2])
+            o_ov = OPGenerator(num_loc=n, max_length=9.0)([2])
+            o = OPGenerator(num_loc=n)([2])
+            p_ov = PCTSPGenerator(num_loc=n, max_penalty=9.0)
+            pg = PCTSPGenerator(num_loc=n)
+        for B, td in zip((2, 5, 1, 3), outs):
+            if tuple(td["locs"].shape) != (B, n, 2) or set(td["capacity"].flatten().tolist()) != {f32(cap_tbl)}:
+                V(ctx, "cvrp-generator-depends-on-history", f"a default CVRPGenerator(num_loc={n}) reused with batch size {B} after an overriding generator: "
+                  f"shape {tuple(td['locs'].shape)}, capacity {td['capacity'].flatten().tolist()[:2]} (documented {cap_tbl})", {"num_loc": n, "B": B})
+            raw = (td["demand"].double() * cap_tbl).round()
+            if raw.min() < 1 or raw.max() > 10:
+                V(ctx, "cvrp-generator-depends-on-history", "default demand range not [1,10] after an overriding generator", {"num_loc": n})
+        if set(gtw["capacity"].flatten().tolist()) != {f32(cap_tbl)} or set(o["max_length"].flatten().tolist()) != {f32(ml_tbl)} \
+                or set(o_ov["max_length"].flatten().tolist()) != {9.0}:
+            V(ctx, "generator-default-depends-on-history", f"a default generator after an overriding one (num_loc={n}) does not use the documented table value",
+              {"num_loc": n, "cvrptw_cap": gtw["capacity"].flatten().tolist()[:1], "op_max_length": o["max_length"].flatten().tolist()[:1]})
+        if abs(pg.max_penalty - ml_tbl * 3.0 / n) > 1e-9 or abs(p_ov.max_penalty - 9.0 * 3.0 / n) > 1e-9:
+            V(ctx, "generator-default-depends-on-history", "PCTSP max_penalty of a default generator after an overriding one", {"num_loc": n})
+        check_tables(ctx, snap, f"generator calls at num_loc={n}")
+        ctx.count("history:generator-objects")
+        ctx.case(("hist-gen", n))
+    # MTVRP: every preset in turn on fresh objects and one object reused; the presets table must stay what was extracted
+    before = {k: dict(v) for k, v in VARIANT_GENERATION_PRESETS.items()}
+    for preset in rng.sample(MTVRP_PRESETS, 6):
+        with quiet():
+            g = MTVRPGenerator(num_loc=6, variant_preset=preset)
+            for B in (1, 4, 2):
+                td = g([B])
+                if tuple(td["locs"].shape) != (B, 7, 2):
+                    V(ctx, "mtvrp-generator-depends-on-history", f"reused MTVRPGenerator: locs shape {tuple(td['locs'].shape)} for batch size {B}", {"preset": preset})
+            g.variant_probs["O"] = g.variant_probs.get("O", 0.0)     # reading through the object must not alias-modify the table
+        if {k: dict(v) for k, v in VARIANT_GENERATION_PRESETS.items()} != before:
+            V(ctx, "module-table-mutated:mtvrp.VARIANT_GENERATION_PRESETS", f"VARIANT_GENERATION_PRESETS changed after using preset {preset!r}", {"preset": preset})
+        ctx.count("history:mtvrp-presets")
+    with quiet():
+        gf = FJSPGenerator(num_jobs=3, num_machines=2, min_ops_per_job=1, max_ops_per_job=3)
+        for B in (2, 5, 1):
+            td = gf([B])
+            if tuple(td["proc_times"].shape) != (B, 2, 9):
+                V(ctx, "fjsp-generator-depends-on-history", f"reused FJSPGenerator: proc_times shape {tuple(td['proc_times'].shape)} for batch size {B}", {})
+    check_tables(ctx, snap, "the generator-object sweep")
+
+
+def run_history(ctx):
+    guarded(ctx, "dataset-writer-history", history_dataset_writers)
+    guarded(ctx, "generator-history", history_generators)
 
 
 # =================================================================================================
@@ -1875,6 +2094,7 @@ def td_equal(a, b):
 
 
 def run_npz(ctx):
+    guarded(ctx, "dataset-writer-history", history_dataset_writers)
     from rl4co.data.utils import load_npz_to_tensordict, save_tensordict_to_npz
     from rl4co.data.generate_data import generate_dataset, generate_env_data
 
@@ -2358,8 +2578,9 @@ PARAM_NOTE = ("range / well-formedness theorems hold under explicit parameter co
               "over the values regenerated from the sources (Rl4co/Props/C18/Tables.lean)")
 T = Theorem
 P18 = "Rl4co.Props.C18."
+P19 = "Rl4co.Props.C19.Persist"
 
-register(Unit("C18", "gen_routing", run_routing, drivers=["drv_gen"], lean_modules=[P18 + "Tables", P18 + "Routing", P18 + "SpecSanity"],
+register(Unit("C18", "gen_routing", guard_tables(run_routing, "gen_routing"), drivers=["drv_gen"], lean_modules=[P18 + "Tables", P18 + "Routing", P18 + "SpecSanity"],
               theorems=[
                   T("Rl4co.Gen.tblLookup_mem", "proved", "for every size, on or off the table, the nearest-key fallback returns a value of the table"),
                   T("Rl4co.Gen.tblLookup_isSome", "proved", "a non-empty table always yields a value"),
@@ -2386,7 +2607,7 @@ register(Unit("C18", "gen_routing", run_routing, drivers=["drv_gen"], lean_modul
                            "special samplers (cluster, mixed, gaussian mixture …) and mTSP/MDCPDP/FFSP/SMTWTP/FLP ranges: correspondence + sampled ranges only; "
                            "the special samplers are defined on the unit square whatever min_loc/max_loc say and are checked against [0,1] for every generator that "
                            "takes loc_distribution, with the Gaussian draws steered ±6…±40 σ into the tails (Tape.tail) instead of i.i.d. sampling"]))
-register(Unit("C18", "gen_tw", run_tw, drivers=["drv_gen"], lean_modules=[P18 + "Cvrptw", P18 + "Mtvrp", P18 + "Tables", P18 + "SpecSanity", P18 + "MtvrpGenerated"],
+register(Unit("C18", "gen_tw", guard_tables(run_tw, "gen_tw"), drivers=["drv_gen"], lean_modules=[P18 + "Cvrptw", P18 + "Mtvrp", P18 + "Tables", P18 + "SpecSanity", P18 + "MtvrpGenerated"],
               theorems=[
                   T("Rl4co.Gen.Cvrptw.cvrptw_window", "proved", "steps 4–7: window ordered, ≥ 0, reachable from the depot, leaves time to return, for all draws (2·dist+1 ≤ max_time, durations 0)"),
                   T("Rl4co.Gen.Cvrptw.cvrptw_assert", "proved", "the generator's final `min_times < max_times` assertion cannot fire under the same conditions"),
@@ -2412,7 +2633,7 @@ register(Unit("C18", "gen_tw", run_tw, drivers=["drv_gen"], lean_modules=[P18 + 
               ],
               assumptions=[GEN_NOTE, PARAM_NOTE, "MTVRP window arithmetic uses non-dyadic constants: model (exact rationals) vs float32 code compared to 2e-5 relative",
                            "MTVRP: a customer located exactly at the depot (d = 0) divides by zero in the code (NaN windows); excluded by hypothesis 0 < d, probability ~2^-48 per customer"]))
-register(Unit("C18", "gen_atsp", run_atsp, drivers=["drv_gen"], lean_modules=[P18 + "Atsp", P18 + "Tables", P18 + "SpecSanity"],
+register(Unit("C18", "gen_atsp", guard_tables(run_atsp, "gen_atsp"), drivers=["drv_gen"], lean_modules=[P18 + "Atsp", P18 + "Tables", P18 + "SpecSanity"],
               theorems=[
                   T("Rl4co.Gen.Atsp.atsp_triangle", "proved", "the coded single-pass min-plus loop gives D a c ≤ D a b + D b c for all a, c and every b < n (non-negative raw entries)"),
                   T("Rl4co.Gen.Atsp.atsp_diag", "proved", "zero diagonal"),
@@ -2422,7 +2643,7 @@ register(Unit("C18", "gen_atsp", run_atsp, drivers=["drv_gen"], lean_modules=[P1
                   T("Rl4co.Gen.Atsp.triangleOk_iff", "proved", "spec sanity: the executable triangle oracle is exactly the triangle inequality on the first n indices"),
               ],
               assumptions=[GEN_NOTE, "float32 additions inside the loop can break the exact triangle inequality by rounding: sampled with tolerance 1e-6, slack below it is counted"]))
-register(Unit("C18", "gen_sched", run_sched, drivers=["drv_gen"], lean_modules=[P18 + "Sched", P18 + "Tables", P18 + "SpecSanity"],
+register(Unit("C18", "gen_sched", guard_tables(run_sched, "gen_sched"), drivers=["drv_gen"], lean_modules=[P18 + "Sched", P18 + "Tables", P18 + "SpecSanity"],
               theorems=[
                   T("Rl4co.Gen.Sched.fjsp_proc_range", "proved", "FJSP processing time ∈ [min_pt, max_pt] and > 0 for every raw draw"),
                   T("Rl4co.Gen.Sched.fjsp_operation_eligible", "proved", "every real FJSP operation has ≥ 1 machine with positive time (same_mean_per_op)"),
@@ -2434,14 +2655,14 @@ register(Unit("C18", "gen_sched", run_sched, drivers=["drv_gen"], lean_modules=[
                   T("Rl4co.Gen.Sched.numEligible_pos_iff", "proved", "spec sanity: numEligible ≥ 1 ⇔ some entry is positive"),
               ],
               assumptions=[GEN_NOTE, PARAM_NOTE, "argsort of the shuffling draws is an input permutation (ties outside the model)"]))
-register(Unit("C18", "gen_mcp", run_mcp, drivers=["drv_gen"], lean_modules=[P18 + "Routing"],
+register(Unit("C18", "gen_mcp", guard_tables(run_mcp, "gen_mcp"), drivers=["drv_gen"], lean_modules=[P18 + "Routing"],
               theorems=[
                   T("Rl4co.Gen.mcp_gen_total", "proved", "for every draw a membership row of the sampled width comes out, without repeated items, listing only the first `size` drawn items (fixed upstream 202be23)"),
                   T("Rl4co.Gen.mcp_clamp_range", "proved", "set sizes / weights clamp into [min, max]"),
                   T("Rl4co.Gen.removeRepeat_nodup", "proved", "no item listed twice in a membership row"),
               ],
               assumptions=[GEN_NOTE, "membership rows compared as multisets (torch.sort stability is outside the model)"]))
-register(Unit("C18", "gen_solvable", run_solvable, drivers=["drv_gen"], lean_modules=[P18 + "Routing", P18 + "GenWf"],
+register(Unit("C18", "gen_solvable", guard_tables(run_solvable, "gen_solvable"), drivers=["drv_gen"], lean_modules=[P18 + "Routing", P18 + "GenWf"],
               theorems=[T("Rl4co.Gen.gen_wf_cvrp", "proved", "gen_solvable = gen_wf ∘ C02 for CVRP: generated instances satisfy the WF of Rl4co.Cvrp.steps_le"),
                         T("Rl4co.Gen.gen_wf_sdvrp", "proved", "generated SDVRP instances satisfy Sdvrp.WFpos (positive capacity, positive demands)"),
                         T("Rl4co.Gen.gen_steps_le_sdvrp", "proved", "generated ⇒ WF ⇒ the SDVRP C02 step bound"),
@@ -2455,10 +2676,21 @@ register(Unit("C18", "gen_solvable", run_solvable, drivers=["drv_gen"], lean_mod
                            "harness' own loop; the universally quantified termination statements are the C02 theorems of the environment families",
                            "a batched episode that fails while every instance completes solo is counted as batch-only (C02/C04), not as unsolvable"]))
 
+register(Unit("C18", "gen_history", run_history, drivers=["drv_gen"], lean_modules=[P19, P18 + "Tables"],
+              theorems=[
+                  T("Rl4co.Gen.Persist.vrp_calls_independent", "proved", "the capacity generate_vrp_data writes is lookup(size, override applied to the table) of that call's own arguments, "
+                                                                         "whatever calls preceded it (obligation: the updated table is a local of the call)"),
+                  T("Rl4co.Gen.Persist.default_call_after_history", "proved", "a default call after any history writes the documented table capacity"),
+                  T("Rl4co.Gen.Persist.vrpCall_table_unchanged", "proved", "a call leaves the table unchanged"),
+                  T("Rl4co.Gen.data_tables_agree", "proved", "decide: the writer's table is the generators' CAPACITIES / MAX_LENGTHS"),
+              ],
+              assumptions=[GEN_NOTE, "call histories: dataset writers with legal overrides followed by default calls, generator objects reused with different batch sizes, "
+                           "default generators after overriding ones; every module-level table (upper-case dict/list constants of the generator and data modules) is "
+                           "deep-compared before/after — here and around the whole sweep of every other C18 unit and of gen_npz"]))
+
 PERSIST_NOTE = ("C19 is partial: theorems cover the FJSP/JSSP text formats (token level), the demand normalisation and the getstate/setstate record "
                 "update; numpy's npz container, pickle and torch.save/Lightning checkpoints are not modelled — for those the check is the real "
                 "save → load correspondence only")
-P19 = "Rl4co.Props.C19.Persist"
 register(Unit("C19", "gen_text", run_text, drivers=["drv_gen"], lean_modules=[P19],
               theorems=[
                   T("Rl4co.Gen.Persist.fjsp_read_write", "proved", "read (write inst) = inst up to zero padding, for every FJSP instance (token level)"),
@@ -2467,7 +2699,7 @@ register(Unit("C19", "gen_text", run_text, drivers=["drv_gen"], lean_modules=[P1
               assumptions=[PERSIST_NOTE, "file2lines tokenisation and the file system are glue; the reader returns float32 op indices (generator: int64) — "
                            "compared by value and by identical masks/rewards along a fixed action list",
                            "FJSPFileGenerator/JSSPFileGenerator list files with unsorted os.listdir: instances compared as a multiset (order differences counted)"]))
-register(Unit("C19", "gen_npz", run_npz, drivers=["drv_gen"], lean_modules=[P19, P18 + "Tables"],
+register(Unit("C19", "gen_npz", guard_tables(run_npz, "gen_npz"), drivers=["drv_gen"], lean_modules=[P19, P18 + "Tables"],
               theorems=[
                   T("Rl4co.Gen.Persist.load_data_demand", "proved", "CVRPEnv.load_data: demand' = demand / capacity"),
                   T("Rl4co.Gen.Persist.load_data_demand_le_one", "proved", "raw demands 1..9 over a capacity ≥ 9 land in (0, 1]"),
